@@ -79,6 +79,7 @@ macro_rules! history {
                 return Err(Violation::new("model", format!("{name}:public-key"), "public key differs from the independent tree derivation"));
             }
             let mut t: u32 = 0;
+            let mut refused = 0u32;
             // a second buffer for restarts (swapped in)
             let mut spare: Vec<u8>;
             cx.tr.ev("keygen", &[depth as u64, $compact as u64]);
@@ -162,7 +163,16 @@ macro_rules! history {
                             if r.is_ok() && which == Which::C12 {
                                 return Err(Violation::new("model", format!("{name}:update-past-last-period"), format!("update() succeeded at the last period {t}")));
                             }
-                            break;
+                            // the refused evolution leaves a key that was evolved t times: the history goes on
+                            // (observations, signatures, restarts, further refused updates) before it ends
+                            refused += 1;
+                            if refused >= 3 || r.is_ok() {
+                                // one last observation of the exhausted key
+                                if which == Which::C12 && key.get_period() != t {
+                                    return Err(Violation::new("model", format!("{name}:period-after-refused-update"), format!("get_period() = {} after a refused update at period {t}", key.get_period())));
+                                }
+                                break;
+                            }
                         } else {
                             if let Err(e) = r {
                                 if which == Which::C12 {
